@@ -638,7 +638,6 @@ func (in *Interp) conv(dst, src types.Type, x Value) Value {
 	panic(fmt.Sprintf("conv: unhandled %v <- %v (%T)", dst, src, x))
 }
 
-
 func (in *Interp) modelFunc(name string) *ssaFunc {
 	f := in.mainPkg.Func(name)
 	if f == nil {
